@@ -100,6 +100,10 @@ def check_sched(case):
         return ('sched:layer-not-run-exactly-once',
                 what + 'threads for %r, started %r' % (obs['thread_layers'],
                                                        obs['started']))
+    if obs['started'] != list(range(case['k'])):
+        # the layers are started in the order they were handed over (with one worker that IS the order they run in)
+        return ('sched:layers-not-started-in-the-order-handed-over',
+                what + 'started %r (the layers own 1, 2, .. k tests)' % (obs['started'],))
     if obs['ret'] != sum(case['ran']):
         return ('sched:tests-run-total-wrong',
                 what + 'returned %r, children ran %r' % (obs['ret'],
